@@ -101,6 +101,7 @@ type Profile struct {
 	RelURLs      bool // all reference forms (otherwise root-relative only)
 	MediaInText  bool // media inside paragraphs / list items
 	Punct        bool // attach / detach punctuation around words
+	NonASCII     bool // sprinkle non-ASCII filler words between tokens (only for pages delivered as trees)
 	Unlikely     int  // per-mille of wrappers that carry an "unlikely content" class / id / role
 	ShortBias    int  // per-mille of short paragraphs
 	MinBlocks    int
@@ -170,11 +171,17 @@ func (g *ArtGen) textKind() TokKind {
 	return KText
 }
 
+// fillerWords are the only words besides tokens that generated pages contain.
+var nonASCIIFillers = []string{"città", "Århus", "Šiauliai", "naïve", "Рх", "straße", "déjà", "œuvre", "Ελλάδα", "señor", "Ünal", "†"}
+
 func (g *ArtGen) toks(n int) string {
 	k := g.textKind()
 	parts := make([]string, n)
 	for i := range parts {
 		parts[i] = g.tokK(k, "")
+		if g.P.NonASCII && g.r.Intn(6) == 0 {
+			parts[i] += " " + nonASCIIFillers[g.r.Intn(len(nonASCIIFillers))]
+		}
 		if g.P.Punct {
 			switch g.r.Intn(12) {
 			case 0:
